@@ -712,14 +712,15 @@ func (s *Session) SetUnmarshaller(unmarshaller Unmarshaller) {
 }
 
 func (s *Session) Stop() (err error) {
-	defer func() {
-		s.eventHandler.Clean()
-	}()
-
 	err = s.Logout()
 	if err != nil {
 		return fmt.Errorf("sendWithErrorCheck logout request: %w", err)
 	}
+
+	// Drop the application's event handlers before (not after) the logout callback below is
+	// registered: a deferred Clean() used to wipe that callback as well, so the peer's Logout
+	// answer never cancelled the session and only the close timeout did.
+	s.eventHandler.Clean()
 
 	delayTimer := time.AfterFunc(s.LogonSettings.CloseTimeout, func() {
 		s.cancel()
